@@ -4,6 +4,7 @@ import Toodee.Impl.Sort
 import Toodee.Impl.Translate
 import Toodee.Impl.Insert
 import Toodee.Impl.Remove
+import Toodee.Impl.Recv
 /-
   The driver's interpreter: for one op line and the harness's previous observation it computes the
   Impl-model's predicted observation (`M`).  The Spec verdicts (`S`) are in `Toodee/Driver/Oracle.lean`.
@@ -14,21 +15,8 @@ open Toodee
 inductive Elem | u32 | cell | zst
 deriving DecidableEq, Repr
 
-/-- a resolved receiver -/
-inductive Recv
-  | root (t : TD Nat)
-  | ext (t : TD Nat)
-  | vmut (v : VW)
-  | vsh (v : VW)
-deriving Repr
-
-def Recv.isMut : Recv → Bool
-  | .vsh _ => false
-  | _ => true
-
-def Recv.isRoot : Recv → Bool
-  | .root _ => true
-  | _ => false
+/-- a resolved receiver: the Impl-model's `Recv` (Impl/Recv.lean) over the driver's element representation -/
+abbrev Recv := Toodee.Recv Nat
 
 /-- one resolution step (PROTOCOL §5) -/
 def resolveSeg (m : Mode) (t : TD Nat) (rc : Recv) (s : Seg) : Res (Option Recv) :=
@@ -58,41 +46,6 @@ def resolve (m : Mode) (t : TD Nat) : Recv → List Seg → Res (Option Recv)
     | none => pure none
     | some rc' => resolve m t rc' ss
 
-namespace Recv
-
-def numCols : Recv → Nat
-  | .root t | .ext t => t.numCols
-  | .vmut v | .vsh v => v.numCols
-def numRows : Recv → Nat
-  | .root t | .ext t => t.numRows
-  | .vmut v | .vsh v => v.numRows
-
-def indexCoord (m : Mode) : Recv → Nat → Nat → Res Nat
-  | .root t, c, r | .ext t, c, r => t.indexCoord m c r
-  | .vmut v, c, r | .vsh v, c, r => v.indexCoord m c r
-def indexCoordMut (m : Mode) : Recv → Nat → Nat → Res Nat
-  | .root t, c, r | .ext t, c, r => t.indexCoordMut m c r
-  | .vmut v, c, r | .vsh v, c, r => v.indexCoord m c r
-def indexRow (m : Mode) : Recv → Nat → Res Win
-  | .root t, r | .ext t, r => t.indexRow m r
-  | .vmut v, r | .vsh v, r => v.indexRow m r
-def indexRowMut (m : Mode) : Recv → Nat → Res Win
-  | .root t, r | .ext t, r => t.indexRowMut m r
-  | .vmut v, r | .vsh v, r => v.indexRow m r
-def getUnchecked (m : Mode) : Recv → Nat → Nat → Res Nat
-  | .root t, c, r | .ext t, c, r => t.getUnchecked m c r
-  | .vmut v, c, r | .vsh v, c, r => v.getUnchecked m c r
-def getUncheckedRow (m : Mode) : Recv → Nat → Res Win
-  | .root t, r | .ext t, r => t.getUncheckedRow m r
-  | .vmut v, r | .vsh v, r => v.getUncheckedRow m r
-def col (m : Mode) : Recv → Nat → Res Col
-  | .root t, c | .ext t, c => t.col m c
-  | .vmut v, c | .vsh v, c => v.col m c
-def rows (m : Mode) : Recv → Res Rows
-  | .root t | .ext t => pure t.rows
-  | .vmut v | .vsh v => v.rows m
-
-end Recv
 
 /-- what an op produced: result tokens, new root data/dims, drops, number of elements created -/
 structure MOut where
